@@ -52,38 +52,55 @@ Proof.
   destruct C1 as [(A' & B' & C')|A']; [left|right]; repeat split; congruence.
 Qed.
 
+(* _cursor_position_changed: the menu goes, a VALID verdict is forgotten *)
+Lemma cursor_changed_Edit s : Wf s -> Edit s (cursor_changed s) /\
+  text (cursor_changed s) = text s /\ cur (cursor_changed s) = cur s.
+Proof.
+  intros (Wc & Wv & Ws). unfold cursor_changed. destruct (vst s =? 1) eqn:E; unfold Edit, Frame, Wf; simp.
+  - repeat split; auto; try lia. all: try (intros A; congruence).
+  - repeat split; auto; lia.
+Qed.
+
 Lemma text_changed_Edit s : 0 <= cur s <= len (text s) ->
   Frame s (text_changed s) /\ Wf (text_changed s) /\ cst (text_changed s) = None /\
   text (text_changed s) = text s /\ cur (text_changed s) = cur s.
 Proof.
-  intros H. unfold text_changed. destruct (vwt (cfg s)); simp; unfold Frame, Wf; simp;
+  intros H. unfold text_changed. destruct (hval (cfg s) && vwt (cfg s)); simp; unfold Frame, Wf; simp;
     repeat split; auto; try lia; try (intros; congruence); try (intros; discriminate).
 Qed.
 
 (* set_document *)
+Lemma cursor_changed_cst s : cst (cursor_changed s) = None.
+Proof. unfold cursor_changed. destruct (vst s =? 1); reflexivity. Qed.
+
 Lemma set_document_spec s d : wf_doc d -> Wf s ->
   Edit s (set_document s d) /\ text (set_document s d) = dtext d /\ cur (set_document s d) = dcur d.
 Proof.
   intros [Hd0 Hd1] W. pose proof W as (Hc & Hv & Hs).
   unfold set_document. rewrite Z.max_r by lia.
+  set (s1 := set_doc_fields s (dtext d) (dcur d)).
+  assert (F0 : Frame s s1) by (unfold s1, Frame; simp; repeat split; reflexivity).
+  assert (T1 : text s1 = dtext d /\ cur s1 = dcur d) by (unfold s1; simp; auto).
+  (* what a following cursor_changed does to a well-formed state with no obligations left *)
+  assert (CC : forall s2, Frame s s2 -> Wf s2 -> text s2 = dtext d -> cur s2 = dcur d ->
+               Edit s (cursor_changed s2) /\ text (cursor_changed s2) = dtext d /\ cur (cursor_changed s2) = dcur d).
+  { intros s2 F2 W2 A B. destruct (cursor_changed_Edit s2 W2) as ((F & W' & _) & Tt & Tc).
+    split; [|split; congruence]. split; [eapply Frame_trans; eauto|]. split; [exact W'|].
+    right. apply cursor_changed_cst. }
   destruct (str_eqb (dtext d) (text s)) eqn:E1; cbn [negb].
   - apply str_eqb_eq in E1.
+    assert (W1 : Wf s1).
+    { unfold s1, Wf; simp. split; [lia|]. rewrite E1. split; auto. }
     destruct (dcur d =? cur s) eqn:E2; cbn [negb].
-    + apply Z.eqb_eq in E2. unfold Edit, Frame, Wf; simp. rewrite E1, E2.
-      repeat split; auto; try lia.
-    + unfold cursor_changed, Edit, Frame, Wf; simp. rewrite E1.
-      repeat split; auto; try lia. all: try (rewrite <- E1; lia).
-  - set (s1 := set_doc_fields s (dtext d) (dcur d)).
-    assert (H1 : 0 <= cur s1 <= len (text s1)) by (unfold s1; simp; lia).
+    + apply Z.eqb_eq in E2. split; [|exact T1]. split; [exact F0|]. split; [exact W1|].
+      left. unfold s1; simp. auto.
+    + apply CC; auto; apply T1.
+  - assert (H1 : 0 <= cur s1 <= len (text s1)) by (unfold s1; simp; lia).
     destruct (text_changed_Edit s1 H1) as (F & W' & Cn & Tt & Tc).
-    assert (F0 : Frame s s1) by (unfold s1, Frame; simp; repeat split; reflexivity).
     destruct (dcur d =? cur s) eqn:E2; cbn [negb].
-    + split; [|split]; [|rewrite Tt; reflexivity|rewrite Tc; reflexivity].
-      split; [eapply Frame_trans; eauto|]. split; auto.
-    + unfold cursor_changed. split; [|split]; simp; [|rewrite Tt; reflexivity|rewrite Tc; reflexivity].
-      split.
-      * eapply Frame_trans; [exact F0|]. unfold Frame in *; simp. exact F.
-      * split; [|right; reflexivity]. unfold Wf in *; simp. exact W'.
+    + split; [|split]; [|rewrite Tt; apply T1|rewrite Tc; apply T1].
+      split; [eapply Frame_trans; [exact F0|exact F]|]. split; [exact W'|right; exact Cn].
+    + apply CC; [eapply Frame_trans; [exact F0|exact F]|exact W'|rewrite Tt; apply T1|rewrite Tc; apply T1].
 Qed.
 
 Lemma insert_text_spec s data s' e : Wf s -> insert_text s data = (s', e) ->
@@ -145,7 +162,11 @@ Proof.
     - destruct (p <? 0) eqn:B; lia. }
   rewrite Z.max_r by lia.
   destruct (v' =? cur s) eqn:E; [apply Edit_refl; auto|].
-  unfold cursor_changed, Edit, Frame, Wf; simp. repeat split; auto; lia.
+  set (s1 := set_doc_fields s (text s) v').
+  assert (W1 : Wf s1) by (unfold s1, Wf; simp; split; [lia|split; auto]).
+  destruct (cursor_changed_Edit s1 W1) as ((F & W' & _) & _).
+  split; [eapply Frame_trans; [|exact F]; unfold s1, Frame; simp; repeat split; reflexivity|].
+  split; [exact W'|]. right. apply cursor_changed_cst.
 Qed.
 
 (* --- edits that leave the cursor where it is; synchronous validate -------- *)
@@ -153,7 +174,7 @@ Lemma move_cursor_text s p : text (move_cursor s p) = text s.
 Proof.
   unfold move_cursor.
   match goal with |- context [if ?c then s else _] => destruct c end; [reflexivity|].
-  unfold cursor_changed; simp. reflexivity.
+  unfold cursor_changed; simp. destruct (vst s =? 1); reflexivity.
 Qed.
 
 Lemma move_cursor_to s p : 0 <= p <= len (text s) -> cur (move_cursor s p) = p.
@@ -162,7 +183,7 @@ Proof.
   destruct (len (text s) <? p) eqn:A; [lia|]. destruct (p <? 0) eqn:B; [lia|].
   rewrite Z.max_r by lia. destruct (p =? cur s) eqn:E.
   - apply Z.eqb_eq in E. auto.
-  - unfold cursor_changed; simp. reflexivity.
+  - unfold cursor_changed; simp. destruct (vst s =? 1); reflexivity.
 Qed.
 
 Lemma set_text_spec s v : Wf s -> Edit s (set_text s v).
@@ -207,7 +228,7 @@ Qed.
 Lemma validate_sync_spec s ok epos sc : Wf s -> Edit s (validate_sync s ok epos sc).
 Proof.
   intros W. unfold validate_sync. destruct (vst s =? 0); [|apply Edit_refl; auto].
-  destruct (vwt (cfg s) && negb ok).
+  destruct (hval (cfg s) && negb ok).
   - destruct sc.
     + apply Edit_set_val; [apply move_cursor_spec; auto|]. rewrite move_cursor_text. reflexivity.
     + apply Edit_set_val; [apply Edit_refl; auto|reflexivity].
